@@ -55,7 +55,7 @@ def optsets_for(prop):
 
 def programs_for(prop):
     # programs the unchanged compiler rejects are included on purpose: a change that makes one of them accepted is then verified too
-    ps = progs.corpus(big=True, include_fail=True)
+    ps = [p_ for p_ in progs.corpus(big=True, include_fail=True) if "// only: " not in p_["src"] or f"// only: {prop}" in p_["src"]]
     try:
         from .. import gen
         n = 400 if common.tier() == "thorough" else 100
